@@ -7,10 +7,10 @@ CONSTANTS
   Gs <- GsOne
   ConsSet <- BoolSet
   MaxSteps = 2
-  Emit = TRUE
-  Refusals <- NoRefusals
+  Emit = FALSE
+  Refusals <- BadPrmsSwitch
   MatChange = FALSE
-  Mutant = "none"
+  Mutant = "refused_switches"
 INVARIANT LatticeAdmissible
 INVARIANT RefusedKeeps
 INVARIANT Motion
